@@ -4,6 +4,7 @@ import BiotiteModel.Proofs.C10Pickle
 import BiotiteModel.Proofs.C10Ctor
 import BiotiteModel.Proofs.C10Kmers
 import BiotiteModel.Proofs.C10Syncmer
+import BiotiteModel.Proofs.C10Sim
 import BiotiteModel.Gen.C10
 /-!
 # C10 — property theorems (k-mer index tables and selectors)
@@ -70,15 +71,47 @@ theorem C10_fromSelection_exact (a : KAlph) (nBuckets : Option Nat) (refs : List
 
 /-! ## queries -/
 
-/-- **Match exactness**, direct and bucketed tables, any number of buckets `≥ 1`: the result of
-`match` is exactly the set of triples (query position `i`, reference id `r`, reference position
-`j`) such that the unmasked query k-mer at `i` equals a stored k-mer of `r` at `j`. -/
-theorem C10_match_exact (a : KAlph) (bucketed : Bool) (nb : Nat) (items : List Entry)
+/-- **Match exactness**, one theorem for "identical, or similar under a supplied rule, masked positions
+excluded": for direct and bucketed tables and any number of buckets `≥ 1`, with the similarity rule
+as a parameter (`sim q` = the k-mers the rule declares similar to `q`; identical k-mers are
+`sim q = [q]`), `match` returns exactly the triples (query position `i`, reference id `r`, reference
+position `j`) such that the **unmasked** query k-mer at `i` is similar to a stored k-mer of `r` at `j`. -/
+theorem C10_match_exact (sim : Nat → List Nat) (a : KAlph) (bucketed : Bool) (nb : Nat)
+    (items : List Entry) (qk : List Nat) (qm : List Bool)
+    (hbk : bucketed = true → 0 < nb)
+    (hd : bucketed = false → ∀ q ∈ qk, ∀ q' ∈ sim q, q' < nb) (i r j : Nat) :
+    (i, r, j) ∈ matchKmersSim sim (canonTable a bucketed nb items) qk qm ↔
+      ∃ q q', qk[i]? = some q ∧ qm[i]? = some true ∧ q' ∈ sim q ∧ (⟨q', r, j⟩ : Entry) ∈ items :=
+  matchKmersSim_canon sim a bucketed nb items qk qm hbk hd i r j
+
+/-- the instance without a similarity rule (`match` = `matchKmersSim (fun q => [q])`,
+`matchKmers_eq_sim`): identical k-mers. -/
+theorem C10_match_exact_identical (a : KAlph) (bucketed : Bool) (nb : Nat) (items : List Entry)
     (qk : List Nat) (qm : List Bool)
     (hbk : bucketed = true → 0 < nb) (hd : bucketed = false → ∀ q ∈ qk, q < nb) (i r j : Nat) :
     (i, r, j) ∈ matchKmers (canonTable a bucketed nb items) qk qm ↔
-      ∃ q, qk[i]? = some q ∧ qm[i]? = some true ∧ (⟨q, r, j⟩ : Entry) ∈ items :=
-  matchKmers_canon a bucketed nb items qk qm hbk hd i r j
+      ∃ q, qk[i]? = some q ∧ qm[i]? = some true ∧ (⟨q, r, j⟩ : Entry) ∈ items := by
+  rw [matchKmers_eq_sim,
+    C10_match_exact (fun q => [q]) a bucketed nb items qk qm hbk
+      (fun hb q hq q' hq' => by simp only [List.mem_singleton] at hq'; rw [hq']; exact hd hb q hq)]
+  constructor
+  · rintro ⟨q, q', h1, h2, h3, h4⟩
+    simp only [List.mem_singleton] at h3
+    rw [h3] at h4
+    exact ⟨q, h1, h2, h4⟩
+  · rintro ⟨q, h1, h2, h4⟩
+    exact ⟨q, q, h1, h2, by simp, h4⟩
+
+/-- the instance for `ScoreThresholdRule` (specification level: all k-mers whose substitution score
+with the query k-mer reaches the threshold) on a table over its own alphabet. -/
+theorem C10_match_score_rule (mat : List Int) (thr : Int) (a : KAlph) (bucketed : Bool) (nb : Nat)
+    (items : List Entry) (qk : List Nat) (qm : List Bool)
+    (hbk : bucketed = true → 0 < nb) (hd : bucketed = false → nb = a.size) (i r j : Nat) :
+    (i, r, j) ∈ matchKmersSim (scoreSim a mat thr) (canonTable a bucketed nb items) qk qm ↔
+      ∃ q q', qk[i]? = some q ∧ qm[i]? = some true ∧ q' ∈ scoreSim a mat thr q ∧
+        (⟨q', r, j⟩ : Entry) ∈ items :=
+  C10_match_exact _ a bucketed nb items qk qm hbk
+    (fun hb q _ q' hq' => by rw [hd hb]; exact scoreSim_lt a mat thr q q' hq') i r j
 
 /-- The scan for one k-mer returns exactly the stored entries with that k-mer, with multiplicity
 and in insertion order — for the direct table and for every bucket number. -/
@@ -424,5 +457,10 @@ example : syncmerSelect 3 3 2 .ident [0] [0, 1, 2, 0, 1, 2, 2, 1, 0] = .ok [(0, 
 example : mkAlph 4 3 (some [3, 0, 1]) = .ok ⟨4, 3, some [0, 1, 3]⟩ := by decide
 example : getKmers (canonTable ⟨2, 2, none⟩ true 2 [⟨3, 0, 0⟩, ⟨1, 0, 1⟩, ⟨3, 1, 0⟩]) = [1, 3] := by decide
 example : countAll (canonTable ⟨2, 2, none⟩ false 4 [⟨3, 0, 0⟩, ⟨1, 0, 1⟩, ⟨3, 1, 0⟩]) = [0, 1, 0, 2] := by decide
+
+example : matchKmersSim (scoreSim ⟨2, 2, none⟩ [1, 0, 0, 1] 1)
+    (canonTable ⟨2, 2, none⟩ false 4 [⟨1, 0, 0⟩, ⟨2, 0, 1⟩, ⟨1, 0, 2⟩]) [1, 2] [false, true]
+    = [(1, 0, 1)] := by decide
+example : scoreSim ⟨2, 2, none⟩ [1, 0, 0, 1] 1 2 = [0, 2, 3] := by decide
 
 end BiotiteModel.C10
